@@ -8,8 +8,7 @@ RULE = ("TLC enumerates polynomial programs (1-3 terms from 16 mixed monomials o
 
 def run(ctx):
     if ctx.replay:
-        scen = [json.load(open(ctx.replay))["trace"]["scenario"]]
-        scen[0].pop("tid", None)
+        scen = ctx.replay_scenarios()
     else:
         scen = ctx.gen("Gen_C03", "Gen_C03" if ctx.quick else "Gen_C03_big", timeout=900)
     traces = ctx.drive("c03", scen, timeout=3000)
